@@ -1,9 +1,13 @@
 (* C04 — handler results, success/failure/exception feedback and error isolation.
    Only statements here; proofs live in Proofs/FeedbackP.v.  The model (Model/Feedback.v) is the
    model of the REPAIRED code (fixes/C04_success_after_failure.patch,
-   fixes/C04_generator_raise_finishes.patch).  [reachable s]: s is the state after ANY program
-   (forest of scripted events: any handler shapes, flags, channels, nesting) and ANY sequence of
-   dispatcher / task steps; tick()/run() produce particular such sequences. *)
+   fixes/C04_generator_raise_finishes.patch, both committed in /repo).
+   [reachable s]: s is the state after ANY program (forest of scripted events: any handler shapes,
+   flags, channels, nesting) and ANY sequence of dispatcher / task steps; tick()/run() produce
+   particular such sequences.  [reachable_plain s]: the same for programs in which no handler returns
+   the Value of a nested event (`return self.fire(e)`, [RNest]) — [plain_ev].  For programs WITH such
+   handlers the value / errors / success statements are refuted (three open findings, witnesses below);
+   what still holds for them is C04_pass_failure_blocks_success. *)
 From Coq Require Import List ZArith Bool Arith.
 From Circ Require Import Model.Feedback Proofs.FeedbackP.
 Import ListNotations.
@@ -13,7 +17,7 @@ Import ListNotations.
    non-None yield of a generator handler, the error triple PErr for a raise).  At every moment the
    Value holds exactly what Value.setValue makes of that sequence; `result` says whether there is
    one; `errors` is set iff some handler has raised. *)
-Theorem C04_value_tracks : forall s e, reachable s -> e < next s ->
+Theorem C04_value_tracks : forall s e, reachable_plain s -> e < next s ->
   vv (val s e) = accum (produced (spec s) e (log s)) /\
   vresult (val s e) = nonempty (produced (spec s) e (log s)) /\
   verrors (val s e) = (0 <? nraised (spec s) e (log s)).
@@ -34,7 +38,7 @@ Qed.
 Print Assumptions C04_value_refuted.
 
 (* ... and holds under exactly the complement hypothesis *)
-Theorem C04_value : forall s e, reachable s -> e < next s ->
+Theorem C04_value : forall s e, reachable_plain s -> e < next s ->
   (match produced (spec s) e (log s) with x :: _ :: _ => is_list x = false | _ => True end) ->
   vv (val s e) = pack (produced (spec s) e (log s)).
 Proof. exact value_packed. Qed.
@@ -51,7 +55,7 @@ Print Assumptions C04_setvalue_merges.
 
 (* -- feedback.  [count_der k e (log s)]: number of derived events of kind k fired about e.
    One `exception` event per raise; one <name>_failure per raise iff failure feedback was requested. *)
-Theorem C04_feedback_counts : forall s e, reachable s -> e < next s ->
+Theorem C04_feedback_counts : forall s e, reachable_plain s -> e < next s ->
   count_der DExc e (log s) = nraised (spec s) e (log s) /\
   count_der DFail e (log s) = (if ev_fail (spec s e) then nraised (spec s) e (log s) else 0).
 Proof. exact feedback_counts. Qed.
@@ -59,14 +63,14 @@ Print Assumptions C04_feedback_counts.
 
 (* <name>_success is fired exactly once iff the event has passed the _eventDone gate (all its
    generator handlers have ended), asked for it, and no handler raised; otherwise never *)
-Theorem C04_success : forall s e, reachable s -> e < next s -> kind s e = KUser ->
+Theorem C04_success : forall s e, reachable_plain s -> e < next s -> kind s e = KUser ->
   count_der DSucc e (log s) =
   (if is_fin (phase s e) && Nat.eqb (nraised (spec s) e (log s)) 0 && ev_succ (spec s e) then 1 else 0).
 Proof. exact success_count. Qed.
 Print Assumptions C04_success.
 
 (* ... and only after every handler step of the event: nothing newer in the log is activity of e *)
-Theorem C04_success_last : forall s e l1 l2, reachable s -> e < next s -> kind s e = KUser ->
+Theorem C04_success_last : forall s e l1 l2, reachable_plain s -> e < next s -> kind s e = KUser ->
   log s = l1 ++ LFD DSucc e :: l2 -> forall x, In x l1 -> ~ hentry x e.
 Proof. exact success_last. Qed.
 Print Assumptions C04_success_last.
@@ -74,15 +78,16 @@ Print Assumptions C04_success_last.
 (* -- isolation / progress.  Whatever raised: once queue and task set are empty, every event ever
    fired (by handlers that raised, by generator steps, feedback events) has been dispatched and has
    passed the _eventDone gate with waitingHandlers = 0 — no event is lost or left hanging *)
-Theorem C04_progress : forall s, reachable s -> quiet s = true ->
+Theorem C04_progress : forall s, reachable_plain s -> quiet s = true ->
   forall d, d < next s -> phase s d = PFin /\ waiting s d = 0.
 Proof. exact progress. Qed.
 Print Assumptions C04_progress.
 
-(* the dispatcher pass of ANY user event in ANY state invokes every plain handler of the event and
+(* the dispatcher pass of any plain user event (whose Value has no parent Value) in ANY state invokes every plain handler of the event and
    registers every generator handler, whichever of them raise (a raise never ends the handler loop) *)
 Theorem C04_dispatch_isolation : forall s e j h,
   e < next s -> kind s e = KUser -> nth_error (ev_hs (spec s e)) j = Some h ->
+  vpar s e = None -> plain_ev (spec s e) = true ->
   match h with
   | HP _ _ => In (LH e j) (log (dispatch e s))
   | HG _ _ _ => In {| tev := e; thd := j; tk := 0 |} (tasks (dispatch e s))
@@ -94,10 +99,60 @@ Print Assumptions C04_dispatch_isolation.
    of them raised: every plain handler was invoked, every segment of every generator handler up to and
    including the one that returns or raises was entered *)
 Theorem C04_finished_complete : forall s e i h,
-  reachable s -> e < next s -> kind s e = KUser -> phase s e = PFin ->
+  reachable_plain s -> e < next s -> kind s e = KUser -> phase s e = PFin ->
   nth_error (ev_hs (spec s e)) i = Some h -> handler_finished (log s) e i h.
 Proof. exact finished_complete. Qed.
 Print Assumptions C04_finished_complete.
+
+(* -- ALL programs, including handlers that return the Value of a nested event.
+   If a plain handler of e raises, the dispatcher pass of e fires no <name>_success (of any event),
+   whatever the other handlers return: the failure is remembered by the pass itself (`err`), not only
+   by the errors flag, which a nested Value can clear *)
+Theorem C04_pass_failure_blocks_success : forall s e d,
+  kind s e = KUser -> existsb raising (ev_hs (spec s e)) = true ->
+  count_der DSucc d (log (dispatch e s)) = count_der DSucc d (log s).
+Proof. exact pass_failure_blocks_success. Qed.
+Print Assumptions C04_pass_failure_blocks_success.
+
+(* The full statements are REFUTED for programs with nested-Value returns (unchanged code; open findings
+   C04-nested-value-loses-results / -clears-errors / -success-after-failure): Value.setValue copies
+   result/errors from the still unresolved nested Value. *)
+Definition nest_ev : ev := Ev 2 false false false false SDefault [HP [] (RRet (PInt 10))].
+
+(* handlers returning 5, self.fire(x), 7: the event ends holding 7 *)
+Theorem C04_nested_value_refuted : exists roots sched,
+  let s := run 20 sched (start roots) in
+  quiet s = true /\ phase s 0 = PFin /\ vv (val s 0) = PInt 7 /\ vv (val s 1) = PInt 10 /\
+  vv (val s 0) <> pack [PInt 5; PRef 1; PInt 7].
+Proof.
+  exists [Ev 1 false false false false SDefault
+            [HP [] (RRet (PInt 5)); HP [] (RNest nest_ev); HP [] (RRet (PInt 7))]], [].
+  vm_compute. repeat split; auto; discriminate.
+Qed.
+Print Assumptions C04_nested_value_refuted.
+
+(* a raising handler, then `return self.fire(x)`: errors ends False although a handler raised *)
+Theorem C04_nested_errors_refuted : exists roots sched,
+  let s := run 20 sched (start roots) in
+  quiet s = true /\ phase s 0 = PFin /\ nraised (spec s) 0 (log s) = 1 /\ verrors (val s 0) = false /\
+  count_der DSucc 0 (log s) = 0.
+Proof.
+  exists [Ev 1 true true false false SDefault [HP [] RRaise; HP [] (RNest nest_ev)]], [].
+  vm_compute. repeat split; auto.
+Qed.
+Print Assumptions C04_nested_errors_refuted.
+
+(* ... and with a generator handler pending the event finishes from processTask: success after failure *)
+Theorem C04_nested_success_refuted : exists roots sched,
+  let s := run 20 sched (start roots) in
+  quiet s = true /\ phase s 0 = PFin /\ nraised (spec s) 0 (log s) = 1 /\
+  count_der DFail 0 (log s) = 1 /\ count_der DSucc 0 (log s) = 1.
+Proof.
+  exists [Ev 1 true true false false SDefault
+            [HP [] RRaise; HP [] (RNest nest_ev); HG [([], PInt 1)] [] false]], [[]; [(1, 2)]; [(1, 2)]].
+  vm_compute. repeat split; auto.
+Qed.
+Print Assumptions C04_nested_success_refuted.
 
 (* non-vacuity: a raising handler, a generator that yields twice, a generator that raises late,
    success + failure requested; ticks stepping the two tasks in both orders *)
@@ -109,6 +164,10 @@ Definition ex_prog : list ev :=
        HP [] (RRet (PInt 7))]].
 Definition ex_state : st := run 50 [[]; [(1, 2); (1, 1)]; [(1, 1); (1, 2)]; [(1, 1)]; [(1, 1)]] (start ex_prog).
 
+Example C04_ex_plain : forallb plain_ev ex_prog = true.
+Proof. vm_compute. reflexivity. Qed.
+Example C04_ex_raising : existsb raising (ev_hs (spec ex_state 0)) = true /\ kind ex_state 0 = KUser.
+Proof. vm_compute. auto. Qed.
 Example C04_ex_reaches_quiet : quiet ex_state = true /\ next ex_state = 10.
 Proof. vm_compute. auto. Qed.
 Example C04_ex_value :
